@@ -71,6 +71,41 @@ theorem eacc_read {e : Expr} : ∀ ev ∈ eacc e, ev.write = false := by
     · exact iha ev h
     · exact ihb ev h
 
+theorem hasRW_iff {evs : List Ev} {x : Nat} :
+    hasRW evs x = true ↔ ∃ e ∈ evs, e.var = x ∧ e.rw = true := by
+  simp [hasRW, List.any_eq_true]
+
+/-- what the hypothesis about unanalysed code says -/
+theorem coveredBy_iff {evs : List Ev} {body : RStmt} :
+    coveredBy evs body = true ↔
+      ∀ e ∈ sacc body, ∃ e' ∈ evs, e'.var = e.var ∧ e'.write = e.write ∧ (e.arr = true → e'.arr = true) := by
+  simp only [coveredBy, List.all_eq_true, List.any_eq_true, Bool.and_eq_true, beq_iff_eq, Bool.or_eq_true,
+    Bool.not_eq_true']
+  constructor
+  · intro h e he
+    obtain ⟨e', he', ⟨hv, hw⟩, ha⟩ := h e he
+    refine ⟨e', he', hv, hw, fun h1 => ?_⟩
+    rcases ha with ha | ha
+    · exact ha
+    · rw [h1] at ha; exact absurd ha (by decide)
+  · intro h e he
+    obtain ⟨e', he', hv, hw, ha⟩ := h e he
+    refine ⟨e', he', ⟨hv, hw⟩, ?_⟩
+    cases hea : e.arr
+    · exact Or.inr rfl
+    · exact Or.inl (ha hea)
+
+/-- statements without unanalysed code satisfy the hypothesis -/
+theorem covered_ofStmt (s : Stmt) : covered (ofStmt s) = true := by
+  induction s with
+  | skip => rfl
+  | seq a b iha ihb => simp [ofStmt, covered, iha, ihb]
+  | assign x e => rfl
+  | store1 a i e => rfl
+  | store2 a i j e => rfl
+  | ite c t f iht ihf => simp [ofStmt, covered, iht, ihf]
+  | loop v lo hi st b ih => simp [ofStmt, covered, ih]
+
 /-! ## execution: agreement with MiniF, static write set, frame -/
 
 theorem rexec_ofStmt (fuel : Nat) (s : Stmt) : rexec fuel (ofStmt s) = exec s := by
@@ -141,51 +176,68 @@ theorem rexec_frame {fuel : Nat} {s : RStmt} {σ : Store} {x : Nat} (hx : x ∉ 
     simp only [rexec]
     exact whileN_invariant (fun τ => τ (x, i, j) = σ (x, i, j)) c (rexec fuel b)
       (fun τ hτ => by show (rexec fuel b τ) (x, i, j) = σ (x, i, j); rw [ih hx]; exact hτ) fuel σ rfl
+  | code acc b ih =>
+    simp only [rwvars] at hx
+    simp only [rexec]
+    exact ih hx
 
-/-- every statically written variable has a WRITE event -/
-theorem wvars_written {s : RStmt} {x : Nat} (h : x ∈ rwvars s) : isWritten (sacc s) x = true := by
+/-- every statically written variable has a WRITE event (given that unanalysed code writes
+only what its access list announces) -/
+theorem wvars_written {s : RStmt} {x : Nat} (hc : covered s = true) (h : x ∈ rwvars s) :
+    isWritten (sacc s) x = true := by
   induction s with
   | skip => simp [rwvars] at h
   | seq a b iha ihb =>
+    simp only [covered, Bool.and_eq_true] at hc
     simp only [rwvars, List.mem_append] at h
     rw [isWritten_iff]
     rcases h with h | h
-    · obtain ⟨e, he, hv⟩ := isWritten_iff.mp (iha h)
+    · obtain ⟨e, he, hv⟩ := isWritten_iff.mp (iha hc.1 h)
       exact ⟨e, by simp [sacc, he], hv⟩
-    · obtain ⟨e, he, hv⟩ := isWritten_iff.mp (ihb h)
+    · obtain ⟨e, he, hv⟩ := isWritten_iff.mp (ihb hc.2 h)
       exact ⟨e, by simp [sacc, he], hv⟩
   | assign y e =>
     simp only [rwvars, List.mem_singleton] at h
     rw [isWritten_iff]
-    exact ⟨⟨y, true, false⟩, by simp [sacc], h.symm, rfl⟩
+    exact ⟨⟨y, true, false, false⟩, by simp [sacc], h.symm, rfl⟩
   | store1 a i e =>
     simp only [rwvars, List.mem_singleton] at h
     rw [isWritten_iff]
-    exact ⟨⟨a, true, true⟩, by simp [sacc], h.symm, rfl⟩
+    exact ⟨⟨a, true, true, false⟩, by simp [sacc], h.symm, rfl⟩
   | store2 a i j e =>
     simp only [rwvars, List.mem_singleton] at h
     rw [isWritten_iff]
-    exact ⟨⟨a, true, true⟩, by simp [sacc], h.symm, rfl⟩
+    exact ⟨⟨a, true, true, false⟩, by simp [sacc], h.symm, rfl⟩
   | ite c t f iht ihf =>
+    simp only [covered, Bool.and_eq_true] at hc
     simp only [rwvars, List.mem_append] at h
     rw [isWritten_iff]
     rcases h with h | h
-    · obtain ⟨e, he, hv⟩ := isWritten_iff.mp (iht h)
+    · obtain ⟨e, he, hv⟩ := isWritten_iff.mp (iht hc.1 h)
       exact ⟨e, by simp [sacc, he], hv⟩
-    · obtain ⟨e, he, hv⟩ := isWritten_iff.mp (ihf h)
+    · obtain ⟨e, he, hv⟩ := isWritten_iff.mp (ihf hc.2 h)
       exact ⟨e, by simp [sacc, he], hv⟩
   | loop v lo hi st b ih =>
+    simp only [covered] at hc
     simp only [rwvars, List.mem_cons] at h
     rw [isWritten_iff]
     rcases h with h | h
-    · exact ⟨⟨v, true, false⟩, by simp [sacc], h.symm, rfl⟩
-    · obtain ⟨e, he, hv⟩ := isWritten_iff.mp (ih h)
+    · exact ⟨⟨v, true, false, false⟩, by simp [sacc], h.symm, rfl⟩
+    · obtain ⟨e, he, hv⟩ := isWritten_iff.mp (ih hc h)
       exact ⟨e, by simp [sacc, he], hv⟩
   | whileDo c b ih =>
+    simp only [covered] at hc
     simp only [rwvars] at h
     rw [isWritten_iff]
-    obtain ⟨e, he, hv⟩ := isWritten_iff.mp (ih h)
+    obtain ⟨e, he, hv⟩ := isWritten_iff.mp (ih hc h)
     exact ⟨e, by simp [sacc, he], hv⟩
+  | code acc b ih =>
+    simp only [covered, Bool.and_eq_true] at hc
+    simp only [rwvars] at h
+    obtain ⟨e, he, hv, hw⟩ := isWritten_iff.mp (ih hc.2 h)
+    obtain ⟨e', he', hv', hw', _⟩ := coveredBy_iff.mp hc.1 e he
+    rw [isWritten_iff]
+    exact ⟨e', by simpa [sacc] using he', hv'.trans hv, hw'.trans hw⟩
 
 /-! ## simulation -/
 
@@ -228,6 +280,16 @@ def KOK (A0 : Loc → Prop) (K : List Nat) (evs : List Ev) : Prop :=
 theorem KOK.mono {A0 : Loc → Prop} {K : List Nat} {evs evs' : List Ev} (h : KOK A0 K evs)
     (hs : ∀ e ∈ evs', e ∈ evs) : KOK A0 K evs' :=
   fun e he => h e (hs e he)
+
+/-- the reads of unanalysed code stay inside the agreement set if the announced ones do -/
+theorem KOK.code {A0 : Loc → Prop} {K : List Nat} {acc : List Acc} {b : RStmt}
+    (h : KOK A0 K (sacc (.code acc b))) (hc : coveredBy (accEvs acc) b = true) : KOK A0 K (sacc b) := by
+  intro e he hw hk l hl
+  obtain ⟨e', he', hv', hw', ha'⟩ := coveredBy_iff.mp hc e he
+  refine h e' (by simpa [sacc] using he') (hw'.trans hw) (hv' ▸ hk) l ⟨hl.1.trans hv'.symm, ?_⟩
+  rcases hl.2 with h1 | h1
+  · exact Or.inl (ha' h1)
+  · exact Or.inr h1
 
 /-! ### covered array elements -/
 
@@ -299,7 +361,7 @@ theorem eval_simX {A0 : Loc → Prop} {K : List Nat} {S : Defs} {e : Expr} {σ0 
     simp only [okX, Bool.or_eq_true, List.contains_iff_mem] at hok
     apply h.sim.agree
     rcases hok with hok | hok
-    · exact Or.inl (hk ⟨x, false, false⟩ (by simp [eacc]) rfl hok _ ⟨rfl, Or.inr ⟨rfl, rfl⟩⟩)
+    · exact Or.inl (hk ⟨x, false, false, false⟩ (by simp [eacc]) rfl hok _ ⟨rfl, Or.inr ⟨rfl, rfl⟩⟩)
     · exact Or.inr ⟨hok, rfl, rfl⟩
   | idx1 a i ih =>
     simp only [okX, Bool.and_eq_true, Bool.or_eq_true, List.contains_iff_mem] at hok
@@ -307,7 +369,7 @@ theorem eval_simX {A0 : Loc → Prop} {K : List Nat} {S : Defs} {e : Expr} {σ0 
     simp only [eval]
     rcases hok.2 with hin | hin
     · rw [hi]
-      exact h.sim.agree _ (Or.inl (hk ⟨a, false, true⟩ (by simp [eacc]) rfl hin _ ⟨rfl, Or.inl rfl⟩))
+      exact h.sim.agree _ (Or.inl (hk ⟨a, false, true, false⟩ (by simp [eacc]) rfl hin _ ⟨rfl, Or.inl rfl⟩))
     · have := (h.da (a, i) hin).2
       rw [← hi]
       exact this
@@ -316,7 +378,7 @@ theorem eval_simX {A0 : Loc → Prop} {K : List Nat} {S : Defs} {e : Expr} {σ0 
     have hi := ihi (hk.mono (fun e he => by simp [eacc, he])) hok.1.1
     have hj := ihj (hk.mono (fun e he => by simp [eacc, he])) hok.1.2
     simp only [eval, hi, hj]
-    exact h.sim.agree _ (Or.inl (hk ⟨a, false, true⟩ (by simp [eacc]) rfl hok.2 _ ⟨rfl, Or.inl rfl⟩))
+    exact h.sim.agree _ (Or.inl (hk ⟨a, false, true, false⟩ (by simp [eacc]) rfl hok.2 _ ⟨rfl, Or.inl rfl⟩))
   | un op e ih =>
     simp only [okX] at hok
     simp only [eval]
@@ -379,24 +441,25 @@ theorem SimS.setScalar {A0 : Loc → Prop} {S : Defs} {σ0 τ0 σ τ : Store} (h
   ⟨(h.sim.set (x, 0, 0) v).weaken Adef_cons_of, (h.da.mono hsub).set x 0 0 v hx⟩
 
 theorem chk_sim {fuel : Nat} {A0 : Loc → Prop} {K : List Nat} {σ0 τ0 : Store} (s : RStmt) :
-    ∀ (S S' : Defs) (σ τ : Store), chk K s S = some S' → KOK A0 K (sacc s) →
+    covered s = true → ∀ (S S' : Defs) (σ τ : Store), chk K s S = some S' → KOK A0 K (sacc s) →
       SimS A0 S σ0 τ0 σ τ →
       SimS A0 S' σ0 τ0 (rexec fuel s σ) (rexec fuel s τ) ∧ (∀ x ∈ S.1, x ∈ S'.1) := by
   induction s with
   | skip =>
-    intro S S' σ τ hc _ h
+    intro _ S S' σ τ hc _ h
     simp only [chk, Option.some.injEq] at hc
     subst hc
     exact ⟨h, fun _ hx => hx⟩
   | seq a b iha ihb =>
-    intro S S' σ τ hc hk h
+    intro hcov S S' σ τ hc hk h
     simp only [chk, Option.bind_eq_some_iff] at hc
     obtain ⟨S1, h1, h2⟩ := hc
-    obtain ⟨s1, m1⟩ := iha S S1 σ τ h1 (hk.mono (fun e he => by simp [sacc, he])) h
-    obtain ⟨s2, m2⟩ := ihb S1 S' _ _ h2 (hk.mono (fun e he => by simp [sacc, he])) s1
+    simp only [covered, Bool.and_eq_true] at hcov
+    obtain ⟨s1, m1⟩ := iha hcov.1 S S1 σ τ h1 (hk.mono (fun e he => by simp [sacc, he])) h
+    obtain ⟨s2, m2⟩ := ihb hcov.2 S1 S' _ _ h2 (hk.mono (fun e he => by simp [sacc, he])) s1
     exact ⟨s2, fun x hx => m2 x (m1 x hx)⟩
   | assign x e =>
-    intro S S' σ τ hc hk h
+    intro hcov S S' σ τ hc hk h
     simp only [chk] at hc
     split at hc
     · rename_i hok
@@ -408,7 +471,7 @@ theorem chk_sim {fuel : Nat} {A0 : Loc → Prop} {K : List Nat} {σ0 τ0 : Store
         (fun p hp => (mem_killA.mp hp).2 x (by simp)), fun y hy => List.mem_cons_of_mem _ hy⟩
     · exact absurd hc (by simp)
   | store1 a i e =>
-    intro S S' σ τ hc hk h
+    intro hcov S S' σ τ hc hk h
     simp only [chk] at hc
     split at hc
     · rename_i hok
@@ -436,7 +499,7 @@ theorem chk_sim {fuel : Nat} {A0 : Loc → Prop} {K : List Nat} {σ0 τ0 : Store
         · exact hkill p hp
     · exact absurd hc (by simp)
   | store2 a i j e =>
-    intro S S' σ τ hc hk h
+    intro hcov S S' σ τ hc hk h
     simp only [chk] at hc
     split at hc
     · rename_i hok
@@ -452,7 +515,7 @@ theorem chk_sim {fuel : Nat} {A0 : Loc → Prop} {K : List Nat} {σ0 τ0 : Store
           (fun p hp => (mem_killA.mp hp).2 a (by simp))⟩, fun y hy => hy⟩
     · exact absurd hc (by simp)
   | ite c t f iht ihf =>
-    intro S S' σ τ hc hk h
+    intro hcov S S' σ τ hc hk h
     simp only [chk] at hc
     split at hc
     · rename_i hcnd
@@ -461,8 +524,9 @@ theorem chk_sim {fuel : Nat} {A0 : Loc → Prop} {K : List Nat} {σ0 τ0 : Store
         simp only [Option.some.injEq] at hc
         subst hc
         have hc' := eval_simX (hk.mono (fun e he => by simp [sacc, he])) hcnd h
-        obtain ⟨s1, m1⟩ := iht S St σ τ ht (hk.mono (fun e he => by simp [sacc, he])) h
-        obtain ⟨s2, m2⟩ := ihf S Sf σ τ hf (hk.mono (fun e he => by simp [sacc, he])) h
+        simp only [covered, Bool.and_eq_true] at hcov
+        obtain ⟨s1, m1⟩ := iht hcov.1 S St σ τ ht (hk.mono (fun e he => by simp [sacc, he])) h
+        obtain ⟨s2, m2⟩ := ihf hcov.2 S Sf σ τ hf (hk.mono (fun e he => by simp [sacc, he])) h
         simp only [rexec, hc']
         refine ⟨?_, fun y hy => List.mem_filter.mpr ⟨m1 y hy, by simpa using m2 y hy⟩⟩
         split
@@ -472,7 +536,7 @@ theorem chk_sim {fuel : Nat} {A0 : Loc → Prop} {K : List Nat} {σ0 τ0 : Store
       · exact absurd hc (by simp)
     · exact absurd hc (by simp)
   | loop v lo hi st b ih =>
-    intro S S' σ τ hc hk h
+    intro hcov S S' σ τ hc hk h
     simp only [chk] at hc
     split at hc
     · rename_i hok
@@ -495,7 +559,7 @@ theorem chk_sim {fuel : Nat} {A0 : Loc → Prop} {K : List Nat} {σ0 τ0 : Store
               SimS A0 (S.1, killA S.2 (v :: rwvars b)) σ0 τ0
                 (rexec fuel b (σ'.set (v, 0, 0) val)) (rexec fuel b (τ'.set (v, 0, 0) val)) := by
             intro σ' τ' val h'
-            obtain ⟨s1, m1⟩ := ih (v :: S.1, killA S.2 (v :: rwvars b)) Sb _ _ hb
+            obtain ⟨s1, m1⟩ := ih hcov (v :: S.1, killA S.2 (v :: rwvars b)) Sb _ _ hb
               (hk.mono (fun e he => by simp [sacc, he]))
               (h'.setScalar v val (fun p hp => hp) hH)
             exact s1.weaken (fun x hx => m1 x (List.mem_cons_of_mem _ hx))
@@ -512,7 +576,7 @@ theorem chk_sim {fuel : Nat} {A0 : Loc → Prop} {K : List Nat} {σ0 τ0 : Store
       · exact absurd hc (by simp)
     · exact absurd hc (by simp)
   | whileDo c b ih =>
-    intro S S' σ τ hc hk h
+    intro hcov S S' σ τ hc hk h
     simp only [chk] at hc
     split at hc
     · rename_i hcnd
@@ -529,7 +593,7 @@ theorem chk_sim {fuel : Nat} {A0 : Loc → Prop} {K : List Nat} {σ0 τ0 : Store
           exact whileN_sim (fun σ' τ' => SimS A0 (S.1, killA S.2 (rwvars b)) σ0 τ0 σ' τ') c (rexec fuel b)
             (fun σ' τ' h' => eval_simX (hk.mono (fun e he => by simp [sacc, he])) hcnd h')
             (fun σ' τ' h' => by
-              obtain ⟨s1, m1⟩ := ih _ Sb σ' τ' hb (hk.mono (fun e he => by simp [sacc, he])) h'
+              obtain ⟨s1, m1⟩ := ih hcov _ Sb σ' τ' hb (hk.mono (fun e he => by simp [sacc, he])) h'
               exact s1.weaken (fun x hx => m1 x hx)
                 (fun p hp => by
                   have := List.all_eq_true.mp hsub p hp
@@ -538,6 +602,12 @@ theorem chk_sim {fuel : Nat} {A0 : Loc → Prop} {K : List Nat} {σ0 τ0 : Store
         · exact absurd hc (by simp)
       · exact absurd hc (by simp)
     · exact absurd hc (by simp)
+  | code acc b ih =>
+    intro hcov S S' σ τ hc hk h
+    simp only [covered, Bool.and_eq_true] at hcov
+    simp only [chk] at hc
+    simp only [rexec]
+    exact ih hcov.2 S S' σ τ hc (hk.code hcov.1) h
 
 /-! ### `chk` succeeds when every read is of a variable in `K` -/
 
@@ -611,44 +681,48 @@ theorem chk_survive {K : List Nat} (s : RStmt) :
         · exact absurd hc (by simp)
       · exact absurd hc (by simp)
     · exact absurd hc (by simp)
+  | code acc b ih =>
+    intro S S' hc p hp hw
+    simp only [chk] at hc
+    exact ih S S' hc p hp (fun w hw' => hw w (by simpa [rwvars] using hw'))
 
 theorem okX_of_reads {K : List Nat} {S : Defs} {e : Expr} (h : ∀ ev ∈ eacc e, ev.var ∈ K) :
     okX K S e = true := by
   induction e with
   | lit n => rfl
-  | var x => simp [okX, h ⟨x, false, false⟩ (by simp [eacc])]
+  | var x => simp [okX, h ⟨x, false, false, false⟩ (by simp [eacc])]
   | idx1 a i ih =>
-    simp [okX, ih (fun ev he => h ev (by simp [eacc, he])), h ⟨a, false, true⟩ (by simp [eacc])]
+    simp [okX, ih (fun ev he => h ev (by simp [eacc, he])), h ⟨a, false, true, false⟩ (by simp [eacc])]
   | idx2 a i j ihi ihj =>
     simp [okX, ihi (fun ev he => h ev (by simp [eacc, he])), ihj (fun ev he => h ev (by simp [eacc, he])),
-      h ⟨a, false, true⟩ (by simp [eacc])]
+      h ⟨a, false, true, false⟩ (by simp [eacc])]
   | un op e ih => simpa [okX] using ih (fun ev he => h ev (by simpa [eacc] using he))
   | bin op a b iha ihb =>
     simp [okX, iha (fun ev he => h ev (by simp [eacc, he])), ihb (fun ev he => h ev (by simp [eacc, he]))]
 
 theorem chk_of_reads {K : List Nat} (s : RStmt) :
-    ∀ S, (∀ ev ∈ sacc s, ev.write = false → ev.var ∈ K) → (chk K s S).isSome = true := by
+    covered s = true → ∀ S, (∀ ev ∈ sacc s, ev.write = false → ev.var ∈ K) → (chk K s S).isSome = true := by
   induction s with
-  | skip => intro S _; simp [chk]
+  | skip => intro _ S _; simp [chk]
   | seq a b iha ihb =>
-    intro S h
-    obtain ⟨S1, hS1⟩ := Option.isSome_iff_exists.mp (iha S (fun ev he => h ev (by simp [sacc, he])))
+    intro hcov S h
+    obtain ⟨S1, hS1⟩ := Option.isSome_iff_exists.mp (iha (by simp only [covered, Bool.and_eq_true] at hcov; exact hcov.1) S (fun ev he => h ev (by simp [sacc, he])))
     simp only [chk, hS1, Option.bind_some]
-    exact ihb S1 (fun ev he => h ev (by simp [sacc, he]))
+    exact ihb (by simp only [covered, Bool.and_eq_true] at hcov; exact hcov.2) S1 (fun ev he => h ev (by simp [sacc, he]))
   | assign x e =>
-    intro S h
+    intro hcov S h
     have := okX_of_reads (K := K) (S := S) (e := e)
       (fun ev he => h ev (by simp [sacc, he]) (eacc_read ev he))
     simp [chk, this]
   | store1 a i e =>
-    intro S h
+    intro hcov S h
     have h1 := okX_of_reads (K := K) (S := S) (e := e)
       (fun ev he => h ev (by simp [sacc, he]) (eacc_read ev he))
     have h2 := okX_of_reads (K := K) (S := S) (e := i)
       (fun ev he => h ev (by simp [sacc, he]) (eacc_read ev he))
     simp [chk, h1, h2]
   | store2 a i j e =>
-    intro S h
+    intro hcov S h
     have h1 := okX_of_reads (K := K) (S := S) (e := e)
       (fun ev he => h ev (by simp [sacc, he]) (eacc_read ev he))
     have h2 := okX_of_reads (K := K) (S := S) (e := i)
@@ -657,14 +731,14 @@ theorem chk_of_reads {K : List Nat} (s : RStmt) :
       (fun ev he => h ev (by simp [sacc, he]) (eacc_read ev he))
     simp [chk, h1, h2, h3]
   | ite c t f iht ihf =>
-    intro S h
+    intro hcov S h
     have h1 := okX_of_reads (K := K) (S := S) (e := c)
       (fun ev he => h ev (by simp [sacc, he]) (eacc_read ev he))
-    obtain ⟨St, ht⟩ := Option.isSome_iff_exists.mp (iht S (fun ev he => h ev (by simp [sacc, he])))
-    obtain ⟨Sf, hf⟩ := Option.isSome_iff_exists.mp (ihf S (fun ev he => h ev (by simp [sacc, he])))
+    obtain ⟨St, ht⟩ := Option.isSome_iff_exists.mp (iht (by simp only [covered, Bool.and_eq_true] at hcov; exact hcov.1) S (fun ev he => h ev (by simp [sacc, he])))
+    obtain ⟨Sf, hf⟩ := Option.isSome_iff_exists.mp (ihf (by simp only [covered, Bool.and_eq_true] at hcov; exact hcov.2) S (fun ev he => h ev (by simp [sacc, he])))
     simp [chk, h1, ht, hf]
   | loop v lo hi st b ih =>
-    intro S h
+    intro hcov S h
     have h1 := okX_of_reads (K := K) (S := S) (e := lo)
       (fun ev he => h ev (by simp [sacc, he]) (eacc_read ev he))
     have h2 := okX_of_reads (K := K) (S := S) (e := hi)
@@ -672,22 +746,29 @@ theorem chk_of_reads {K : List Nat} (s : RStmt) :
     have h3 := okX_of_reads (K := K) (S := S) (e := st)
       (fun ev he => h ev (by simp [sacc, he]) (eacc_read ev he))
     obtain ⟨Sb, hb⟩ := Option.isSome_iff_exists.mp
-      (ih (v :: S.1, killA S.2 (v :: rwvars b)) (fun ev he => h ev (by simp [sacc, he])))
+      (ih (by simpa only [covered] using hcov) (v :: S.1, killA S.2 (v :: rwvars b)) (fun ev he => h ev (by simp [sacc, he])))
     have hs : subA (killA S.2 (v :: rwvars b)) Sb.2 = true := by
       simp only [subA, List.all_eq_true, List.contains_iff_mem]
       intro p hp
       exact chk_survive b _ Sb hb p hp (fun w hw => (mem_killA.mp hp).2 w (List.mem_cons_of_mem _ hw))
     simp [chk, h1, h2, h3, hb, hs]
   | whileDo c b ih =>
-    intro S h
+    intro hcov S h
     have h1 := okX_of_reads (K := K) (S := (S.1, killA S.2 (rwvars b))) (e := c)
       (fun ev he => h ev (by simp [sacc, he]) (eacc_read ev he))
     obtain ⟨Sb, hb⟩ := Option.isSome_iff_exists.mp
-      (ih (S.1, killA S.2 (rwvars b)) (fun ev he => h ev (by simp [sacc, he])))
+      (ih (by simpa only [covered] using hcov) (S.1, killA S.2 (rwvars b)) (fun ev he => h ev (by simp [sacc, he])))
     have hs : subA (killA S.2 (rwvars b)) Sb.2 = true := by
       simp only [subA, List.all_eq_true, List.contains_iff_mem]
       intro p hp
       exact chk_survive b _ Sb hb p hp (fun w hw => (mem_killA.mp hp).2 w hw)
     simp [chk, h1, hb, hs]
+  | code acc b ih =>
+    intro hcov S h
+    simp only [covered, Bool.and_eq_true] at hcov
+    simp only [chk]
+    refine ih hcov.2 S (fun ev he hw => ?_)
+    obtain ⟨e', he', hv', hw', _⟩ := coveredBy_iff.mp hcov.1 ev he
+    exact hv' ▸ h e' (by simpa [sacc] using he') (hw'.trans hw)
 
 end RegionData
